@@ -113,6 +113,9 @@ def evaluate(inp):
         viol, state = replay([tuple(o) for o in inp['history']])
         if viol:
             return bad(viol[0], None, viol[1])
+        pv, _ = replay((('new', 'string', HIST_INPUTS[0][0]), ('resolve', 0)))
+        if pv:
+            return bad('history:leaves-process-state-behind', None, {'then': pv[0], 'detail': pv[1]})
         return Verdict(outcome='history-ok')
     s = BF.cgsmiles(inp['base'], inp['frags'])
     aa, legacy = inp['all_atom'], inp['legacy']
@@ -237,7 +240,7 @@ def history_machine(fragstr):
         except Exception as e:
             ref[b] = 'raises:' + type(e).__name__
     ops = [('new', k, b) for k in ('string', 'graph', 'dicts') for b in inputs[:3]] + \
-          [('resolve', 0), ('resolve', 1), ('reread',), ('sampler',)]
+          [('resolve', 0), ('resolve', 1), ('reread',), ('sampler',), ('mass',)]
 
     def replay(hist):
         """fresh shared library, operations replayed; returns (violation or None, canonical state)"""
@@ -265,6 +268,12 @@ def history_machine(fragstr):
                         out = (b, dump_pair(c, f))
                 elif op[0] == 'reread':
                     read_fragments(fragstr, fragment_dict=lib[0])
+                elif op[0] == 'mass':
+                    # public helpers called on a plain molecule graph (no fragment annotation) between resolutions
+                    import pysmiles
+                    from cgsmiles.pysmiles_utils import compute_mass, rebuild_h_atoms
+                    compute_mass(pysmiles.read_smiles('CCO'))
+                    rebuild_h_atoms(pysmiles.read_smiles('CC=O'))
                 elif op[0] == 'sampler':
                     try:
                         sm = MoleculeSampler(lib[0], polymer_reactivities={'$': 1, '>': 1, '<': 1, '!': 0}, seed=3)
@@ -294,6 +303,7 @@ def run_history(task, R):
         if len(hist) >= task['depth'] or hist in bad_hist:
             return []
         return [hist + (op,) for op in ops]
+    probe = (('new', 'string', HIST_INPUTS[0][0]), ('resolve', 0))
     for hist in ex.run_bfs((), succ, lambda h: len(h) >= 1):
         viol, state = replay(hist)
         inp = {'kind': 'history', 'library': fragstr, 'history': [list(o) for o in hist]}
@@ -301,6 +311,14 @@ def run_history(task, R):
             bad_hist.add(hist)
             R.record(inp, bad(viol[0], None, dict(viol[1], history=[list(o) for o in hist], library=fragstr)))
         else:
+            # did this history leave something behind in the process (module-level state)?  A fresh resolution
+            # right after it must still give the single-call reference.
+            pv, _ = replay(probe)
+            if pv:
+                R.record(inp, bad('history:leaves-process-state-behind', None,
+                                  {'history': [list(o) for o in hist], 'library': fragstr, 'then': pv[0], 'detail': pv[1]}))
+                R.cap('process state polluted by history %r; exploration of this task stopped' % (hist,))
+                break
             R.record(inp, Verdict(nontrivial=len(hist) >= 2, outcome='h%d:%s' % (len(hist), hashlib.md5(repr(state).encode()).hexdigest()[:6])))
     R.add_explorer(ex)
 
